@@ -1,3 +1,4 @@
 /- aggregator: property theorems of C02 plus the source-tie theorems regenerated from the C++ -/
 import SmoothProps.C02
 import SmoothProps.SrcTie
+import SmoothProps.SrcTieImplC02
